@@ -161,7 +161,9 @@ func (p *Program) loadLangInfo() error {
 	max := -1
 	for _, n := range scope.Names() {
 		c, ok := scope.Lookup(n).(*types.Const)
-		if !ok || !types.Identical(c.Type(), lt.Type()) {
+		if !ok || !types.Identical(c.Type(), lt.Type()) || !c.Exported() {
+			// the supported languages are the exported constants; an unexported
+			// sentinel (e.g. a count) is not a language
 			continue
 		}
 		v, ok := constant.Int64Val(c.Val())
